@@ -1,3 +1,4 @@
+import PlaybackModel.Source
 /-
 Model of `playback/studio/equalizer.py` (the code as it is after the `fix:` commit b2914ed):
   `Equalizer.run_comparison`                                   (l.158-222)
@@ -327,8 +328,11 @@ def runFrom (fresh : Bool) (cfg : Cfg) : PState → List Task → PState × List
     let r := runFrom fresh cfg s.1 ts
     (r.1, s.2 :: r.2)
 
-/-- dedicated-process run of the repaired code -/
-def runDedT (cfg : Cfg) (tasks : List Task) : List Comparison := (runFrom true cfg initState tasks).2
+/-- does every worker get queues of its own?  Read from `_create_new_player_process` on every run (fix F9) -/
+def ownQueues : Bool := PlaybackModel.Source.workerOwnsQueues
+
+/-- dedicated-process run of the code as it stands -/
+def runDedT (cfg : Cfg) (tasks : List Task) : List Comparison := (runFrom ownQueues cfg initState tasks).2
 
 /-- the code before the repair: one task queue and one result queue shared by all workers -/
 def runDedUnfixedT (cfg : Cfg) (tasks : List Task) : List Comparison := (runFrom false cfg initState tasks).2
